@@ -40,7 +40,7 @@ def run(ctx):
         e["t"] = 2
     vlib.note_events(ctx, g + t)
     bad = vlib.validate_trace(ctx, "Bip32PathTrace", g + t)
-    for e in vlib.reproduce(ctx, binp, bad):
+    for e in vlib.reproduce(ctx, binp, bad, history=g + t):
         ctx.bad.append(dict(event=e, reason="real ParsePath/String disagrees with the Bip32Path specification"))
     return vlib.finish(ctx, LEVEL, RULE, ASSUME, matchers=MATCHERS,
                        technique="TLA+ spec Bip32Path (grammar + character automaton); exhaustive TLC model; TLC-generated strings replayed; trace validation")
